@@ -22,6 +22,9 @@ type C12Plan struct {
 	Faults   simschema.MapperFaults  `json:"faults"`
 	Orders   []verifhook.OrderPolicy `json:"orders"`
 	PermBudget int                   `json:"perm_budget"` // how many explicit permutations (n<=4 sites) to run
+	// History: statements expanded earlier against the same schema service (which answers from
+	// stored maps): the result must depend only on statement and schema, not on what ran before
+	History []string `json:"history,omitempty"`
 }
 
 type C12 struct{}
@@ -38,8 +41,8 @@ func (C12) Meta() core.Meta {
 		},
 		Real:       []string{"influxql parser, Clone, RewriteFields, FieldDimensions, EvalType, WalkFunc (instrumented copy of the working tree)", "regexp, sort, fmt"},
 		Stub:       []string{"meta store / shard mapper (simschema.Mapper)", "Go map iteration order (verifhook.MapKeys)"},
-		ProbeNames: []string{"model-full", "order-site-multi", "perm-enumerated", "subquery", "call-wildcard", "dim-wildcard", "type-conflict", "tag-shadows-field", "empty-schema", "fault-in-subquery"},
-		FaultNames: []string{"mapper-error", "nil-maps"},
+		ProbeNames: []string{"model-full", "order-site-multi", "perm-enumerated", "subquery", "call-wildcard", "dim-wildcard", "type-conflict", "tag-shadows-field", "empty-schema", "fault-in-subquery", "history"},
+		FaultNames: []string{"mapper-error", "nil-maps", "stored-maps"},
 	}
 }
 
@@ -64,6 +67,13 @@ func (C12) NewPlan(r *core.Rand, tier string, i uint64) interface{} {
 			p.Faults.NilMaps = true
 		case 2:
 			p.Faults.ErrorAt = []int{r.Intn(3), 3 + r.Intn(3)}
+		}
+	}
+	if r.Chance(1, 5) && len(p.Faults.ErrorAt) == 0 {
+		p.Faults.StoredMaps = true
+		ho := gen.Opts{MaxDepth: 1, Wild: 10, NoRegexSrc: true, SafeNames: o.SafeNames}
+		for k := r.Range(1, 2); k > 0; k-- {
+			p.History = append(p.History, gen.Select(r, ho, 0))
 		}
 	}
 	p.Orders = []verifhook.OrderPolicy{
@@ -97,9 +107,11 @@ type c12out struct {
 	recvChanged string
 	fired  map[string]int
 	steps  int64
+	stored string
+	histCalls int
 }
 
-func runRewrite(text string, sc gen.Schema, f simschema.MapperFaults, pol verifhook.OrderPolicy) (*c12out, bool) {
+func runRewrite(text string, sc gen.Schema, f simschema.MapperFaults, pol verifhook.OrderPolicy, history ...string) (*c12out, bool) {
 	stmt0, err := influxql.ParseStatement(text)
 	if err != nil {
 		return nil, false
@@ -110,8 +122,19 @@ func runRewrite(text string, sc gen.Schema, f simschema.MapperFaults, pol verifh
 	}
 	out := &c12out{}
 	m := simschema.NewMapper(sc, f)
-	before := core.Lines(stmt)
 	verifhook.SetOrder(pol)
+	for _, h := range history {
+		if hs, err := influxql.ParseStatement(h); err == nil {
+			if sel, ok := hs.(*influxql.SelectStatement); ok {
+				verifhook.BeginOp(2000000)
+				core.Guard(func() { _, _ = sel.RewriteFields(m) })
+				verifhook.EndOp()
+			}
+		}
+	}
+	m.Log = nil
+	out.histCalls = m.ResetCalls()
+	before := core.Lines(stmt)
 	verifhook.BeginOp(2000000)
 	var res *influxql.SelectStatement
 	var rerr error
@@ -122,6 +145,7 @@ func runRewrite(text string, sc gen.Schema, f simschema.MapperFaults, pol verifh
 	out.recvChanged = core.Diff(before, after)
 	out.log = m.LogString()
 	out.fired = m.Fired
+	out.stored = m.StoredDiff()
 	if rerr != nil {
 		out.err = rerr.Error()
 		if res != nil {
@@ -212,7 +236,7 @@ func (C12) Exec(pi interface{}) *core.RunResult {
 		p.Orders = []verifhook.OrderPolicy{{Kind: verifhook.OrderAsc}}
 	}
 	verifhook.ResetMapStats()
-	base, ok := runRewrite(p.Text, p.Schema, p.Faults, p.Orders[0])
+	base, ok := runRewrite(p.Text, p.Schema, p.Faults, p.Orders[0], p.History...)
 	if !ok {
 		res.Skipped = "text is not an accepted SELECT"
 		return res
@@ -236,13 +260,19 @@ func (C12) Exec(pi interface{}) *core.RunResult {
 	if base.pan != nil {
 		res.Violate(base.pan.Sig(), fmt.Sprintf("RewriteFields panicked: %s\nstack: %v\ntext: %s", base.pan.Msg, base.pan.Stack, p.Text))
 	}
+	if len(p.History) > 0 {
+		res.Probe("history")
+	}
+	if base.stored != "" {
+		res.Violate("service-maps-modified", "the schema service answers from maps it keeps; after the calls they no longer match its schema: "+base.stored+"\ntext: "+p.Text+"\nhistory: "+strings.Join(p.History, " ;; "))
+	}
 	if base.recvChanged != "" {
 		res.Violate("receiver-mutated", "RewriteFields changed its receiver: "+base.recvChanged+"\ntext: "+p.Text)
 	}
 
 	// 1. order independence
 	for _, pol := range p.Orders[1:] {
-		o, _ := runRewrite(p.Text, p.Schema, p.Faults, pol)
+		o, _ := runRewrite(p.Text, p.Schema, p.Faults, pol, p.History...)
 		res.Steps += o.steps
 		if d := sameOut(base, o); d != "" {
 			res.Violate("order-dependence", fmt.Sprintf("result differs between map orders %+v and %+v: %s\ntext: %s", p.Orders[0], pol, d, p.Text))
@@ -259,7 +289,7 @@ func (C12) Exec(pi interface{}) *core.RunResult {
 		for k := uint64(1); k < n && budget > 0; k++ {
 			budget--
 			pol := verifhook.OrderPolicy{Kind: verifhook.OrderPermAt, Arg: k, Site: int32(site)}
-			o, _ := runRewrite(p.Text, p.Schema, p.Faults, pol)
+			o, _ := runRewrite(p.Text, p.Schema, p.Faults, pol, p.History...)
 			res.Steps += o.steps
 			res.Probe("perm-enumerated")
 			if d := sameOut(base, o); d != "" {
@@ -303,7 +333,7 @@ func (C12) Exec(pi interface{}) *core.RunResult {
 	if faultFired {
 		// narrow relaxation: failing is allowed, a silently partial expansion is not
 		if base.err == "" && base.pan == nil {
-			clean, _ := runRewrite(p.Text, p.Schema, simschema.MapperFaults{NilMaps: p.Faults.NilMaps}, p.Orders[0])
+			clean, _ := runRewrite(p.Text, p.Schema, simschema.MapperFaults{NilMaps: p.Faults.NilMaps}, p.Orders[0], p.History...)
 			if clean.fp != base.fp {
 				res.Violate("partial-under-fault", fmt.Sprintf("mapper failed, RewriteFields returned nil error and a statement that differs from the fault-free expansion: %s\ntext: %s", core.Diff(strings.Split(clean.fp, "\n"), strings.Split(base.fp, "\n")), p.Text))
 			}
@@ -393,6 +423,21 @@ func (C12) Shrink(pi interface{}) []interface{} {
 		q := cp()
 		q.PermBudget = 0
 		out = append(out, q)
+	}
+	for i := range p.History {
+		q := cp()
+		q.History = append(q.History[:i:i], q.History[i+1:]...)
+		out = append(out, q)
+	}
+	for i, h := range p.History {
+		for k, t := range gen.ShrinkText(h) {
+			if k > 60 {
+				break
+			}
+			q := cp()
+			q.History[i] = t
+			out = append(out, q)
+		}
 	}
 	if len(p.Orders) > 2 {
 		for i := 1; i < len(p.Orders); i++ {
